@@ -136,6 +136,76 @@ class Repo:
         canonical_calls(trees)
         for mi in self.modules.values():
             self._index(mi)
+        self._residual()
+
+    def _residual(self):
+        """helpers / helper classes that are not part of the pinned decomposition and survived load-time inlining.  A rule that would
+        report a violation inside a function that (transitively, through calls) relies on one of them has not seen the whole
+        computation: the report is downgraded to 'cannot decide' (core.run_check)."""
+        from .anchors import PINNED_CLASSES, PINNED_FUNCTIONS
+
+        dunder = lambda n: n.startswith("__") and n.endswith("__")
+        res: Dict[str, str] = {}
+        for mi in self.modules.values():
+            for node in mi.tree.body:
+                if isinstance(node, ast.FunctionDef) and node.name not in PINNED_FUNCTIONS and not dunder(node.name):
+                    res[node.name] = f"{mi.relpath}:{node.lineno}"
+                elif isinstance(node, ast.ClassDef):
+                    pinned_family = node.name in PINNED_CLASSES or any(ast.unparse(b).split(".")[-1] in PINNED_CLASSES for b in node.bases)
+                    if not pinned_family:
+                        res[node.name] = f"{mi.relpath}:{node.lineno}"
+                    for m in node.body:
+                        if isinstance(m, ast.FunctionDef) and m.name not in PINNED_FUNCTIONS and not dunder(m.name) and pinned_family and node.name in PINNED_CLASSES:
+                            res[m.name] = f"{mi.relpath}:{m.lineno}"
+        self.residual = res
+        self.residual_classes = {n for mi in self.modules.values() for node in mi.tree.body if isinstance(node, ast.ClassDef) and node.name in res for n in [node.name] if not any(ast.unparse(b).endswith(("Exception", "Error")) for b in node.bases)}
+        self._tainted = None
+
+    def tainted(self) -> Dict[tuple, str]:
+        """(module relpath, qualname) -> helper class (a value class / enum outside the pinned decomposition) the function relies on,
+        directly or through calls.  No rule models such classes; helper *functions* that could not be inlined are different: the
+        interprocedural rules follow them, so they do not taint."""
+        if self._tainted is not None:
+            return self._tainted
+        out: Dict[tuple, str] = {}
+        if not self.residual_classes:
+            self._tainted = out
+            return out
+        funcs = self.all_functions()
+        byname: Dict[str, list] = {}
+        for f in funcs:
+            byname.setdefault(f.name, []).append(f)
+        calls: Dict[int, set] = {}
+        for f in funcs:
+            direct, cs = None, set()
+            for n in ast.walk(f.node):
+                nm = n.id if isinstance(n, ast.Name) else n.attr if isinstance(n, ast.Attribute) else None
+                if nm is not None and nm in self.residual_classes and direct is None:
+                    direct = nm
+                if isinstance(n, ast.Call):
+                    c = n.func.id if isinstance(n.func, ast.Name) else n.func.attr if isinstance(n.func, ast.Attribute) else None
+                    if c:
+                        cs.add(c)
+            if f.cls is not None and f.cls.name in self.residual_classes:
+                direct = f.cls.name
+            calls[id(f)] = cs
+            if direct is not None:
+                out[(f.module.relpath, f.qualname)] = direct
+        changed = True
+        while changed:
+            changed = False
+            for f in funcs:
+                k = (f.module.relpath, f.qualname)
+                if k in out:
+                    continue
+                for c in calls[id(f)]:
+                    hit = next((out[(g.module.relpath, g.qualname)] for g in byname.get(c, []) if (g.module.relpath, g.qualname) in out), None)
+                    if hit is not None:
+                        out[k] = hit
+                        changed = True
+                        break
+        self._tainted = out
+        return out
 
     def load_extra(self, path: str, modname: str) -> ModuleInfo:
         """parse a file that is not part of the package (e.g. the reference definitions) and index it as a module"""
